@@ -4,7 +4,7 @@
    tmapz Quarter = quarter_map, tmapz Beat / tmapz Musical = beat_map in notated / musical mode,
    tinv = the inverse maps, on the timeline [p_first, p_last] of a part with >= 2 points.
    The same definitions are evaluated on every generated part by the correspondence check. *)
-From PV Require Import Lib.Base Model.C02 Model.C02_Hist Gen.C02_Tab Proofs.C02_lib Proofs.C02 Proofs.C02_hist.
+From PV Require Import Lib.Base Model.C02 Model.C02_Hist Model.C02_Api Gen.C02_Tab Proofs.C02_lib Proofs.C02 Proofs.C02_hist Proofs.C02_api.
 From Coq Require Import QArith.
 #[local] Open Scope Z_scope.
 
@@ -247,3 +247,138 @@ Theorem example_part : wf ex_part /\
   (exists v, tmapz Musical ex_part 40 = Some v /\ (v == 70 # 9)%Q).
 Proof. exact (conj ex_part_wf ex_part_values). Qed.
 Print Assumptions example_part.
+
+(* --- the loop of Part._time_interpolator as the code runs it (Model/C02_Api.v: dict of keypoints, sweep over
+   the sorted keys with the running cur_div / cur_bt, cumulative sum).  Every row carries the divisions and
+   the beat factor in force at its key ... *)
+Theorem sweep_rows : forall m p, keys_incr (p_qs p) -> keys_incr (map (fun ts => (ts_t ts, ts)) (p_tss p)) ->
+  kp_rows m p = map (fun t => (t, div_at p t, bt_at m p t)) (kp_xs m p).
+Proof. exact Proofs.C02_api.sweep_rows. Qed.
+Print Assumptions sweep_rows.
+
+(* ... no keypoint is dropped ... *)
+Theorem sweep_keeps_every_keypoint : forall m p, map (fun r => fst (fst r)) (kp_rows m p) = kp_xs m p.
+Proof. exact Proofs.C02_api.sweep_keeps_every_keypoint. Qed.
+Print Assumptions sweep_keeps_every_keypoint.
+
+(* ... and the points handed to the interpolation are the ones all theorems above are about
+   (tmap m p = interp (time_pts m p)): the theorems hold of the loop *)
+Theorem sweep_refines : forall m p, keys_incr (p_qs p) -> keys_incr (map (fun ts => (ts_t ts, ts)) (p_tss p)) ->
+  sweep_pts m p = base_pts m p /\ sweep_time_pts m p = time_pts m p.
+Proof. exact Proofs.C02_api.sweep_refines. Qed.
+Print Assumptions sweep_refines.
+
+(* --- origin: one position for both maps.  The part opens with a measure under a signature and no other
+   signature takes effect inside that measure: the quarter map and the beat map (notated or musical, any
+   user-supplied musical beats) agree on whether it is a pickup, so both have their zero at the same position *)
+Theorem origin_same_position : forall m p, wf p -> forall e ts, m <> Quarter ->
+  p_m1 p = Some (p_first p, e) -> ts_at_first p = Some ts -> p_first p < e <= p_last p ->
+  (forall ts', In ts' (p_tss p) -> ts_t ts' <= p_first p \/ e <= ts_t ts') ->
+  ((pickup_shift Quarter p == 0)%Q <-> (pickup_shift m p == 0)%Q) /\
+  ((quarters_between p (p_first p) e < normal_dur Quarter ts)%Q <->
+   (beats_between m p (p_first p) e < normal_dur m ts)%Q).
+Proof. exact Proofs.C02_api.origin_same_position. Qed.
+Print Assumptions origin_same_position.
+
+(* --- the timeline glue (Model/C02_Api.v): parts built by ANY history of add(Note) / add(Measure) /
+   add(TimeSignature) / remove(TimeSignature) / set_quarter_duration / musical-beat switches
+   (non-negative times, positive values, a signature added only where none is present, one note of
+   positive length) are well-formed, with division 0 as smallest keypoint *)
+Theorem api_wf : forall q0 h, 0 < q0 -> ahist_ok (ainit q0) h -> has_note h -> wf (apart q0 h).
+Proof. exact Proofs.C02_api.api_wf. Qed.
+Print Assumptions api_wf.
+
+Theorem api_kp_min : forall m q0 h, 0 < q0 -> ahist_ok (ainit q0) h -> has_note h ->
+  kp_min m (apart q0 h) = 0 /\ 0 <= p_first (apart q0 h).
+Proof. exact Proofs.C02_api.api_kp_min. Qed.
+Print Assumptions api_kp_min.
+
+(* first / last time point = the smallest / largest time at which a present object starts or ends:
+   every note, measure and time signature change lies ON the timeline *)
+Theorem api_extent : forall q0 h, has_note h -> let p := apart q0 h in
+  (forall s e, In (AAddNote s e) h \/ In (AAddMeasure s e) h -> p_first p <= s <= p_last p /\ p_first p <= e <= p_last p) /\
+  (forall ts, In ts (p_tss p) -> p_first p <= ts_t ts <= p_last p) /\
+  In (p_first p) (a_times (arun q0 h)) /\ In (p_last p) (a_times (arun q0 h)).
+Proof. exact Proofs.C02_api.api_extent. Qed.
+Print Assumptions api_extent.
+
+(* the opening measure m1: a measure starting at the first time point, namely the first such measure in
+   call order; measures that start later never count *)
+Theorem api_m1 : forall q0 h, let p := apart q0 h in
+  (forall s e, p_m1 p = Some (s, e) -> s = p_first p /\ In (AAddMeasure s e) h) /\
+  ((forall s e, In (AAddMeasure s e) h -> s <> p_first p) -> p_m1 p = None) /\
+  (forall h1 h2 s e, h = h1 ++ AAddMeasure s e :: h2 -> s = p_first p ->
+     (forall s' e', In (AAddMeasure s' e') h1 -> s' <> p_first p) -> p_m1 p = Some (s, e)).
+Proof. exact Proofs.C02_api.api_m1. Qed.
+Print Assumptions api_m1.
+
+(* the part does not open with a measure (measures, also short ones under their own signature, may
+   follow later): zero lies at the first time point, for all three maps *)
+Theorem api_origin_no_opening_measure : forall m q0 h v, 0 < q0 -> ahist_ok (ainit q0) h -> has_note h ->
+  let p := apart q0 h in p_first p = 0 ->
+  (forall s e, In (AAddMeasure s e) h -> s <> 0) -> tmapz m p 0 = Some v -> (v == 0)%Q.
+Proof. exact Proofs.C02_api.api_origin_no_opening_measure. Qed.
+Print Assumptions api_origin_no_opening_measure.
+
+(* remove(TimeSignature): exactly the signature at t disappears; adding a signature and removing it again
+   leaves signatures, quarter durations and beat mode as they were *)
+Theorem api_rem_ts_spec : forall st t ts,
+  In ts (h_tss (a_h (astep st (ARemTs t)))) <-> In ts (h_tss (a_h st)) /\ ts_t ts <> t.
+Proof. exact Proofs.C02_api.api_rem_ts_spec. Qed.
+Print Assumptions api_rem_ts_spec.
+
+Theorem api_add_remove_ts : forall st t b bt, aop_ok st (AAddTs t b bt) ->
+  h_tss (a_h (astep (astep st (AAddTs t b bt)) (ARemTs t))) = h_tss (a_h st) /\
+  h_qs (a_h (astep (astep st (AAddTs t b bt)) (ARemTs t))) = h_qs (a_h st) /\
+  h_flag (a_h (astep (astep st (AAddTs t b bt)) (ARemTs t))) = h_flag (a_h st).
+Proof. exact Proofs.C02_api.api_add_remove_ts. Qed.
+Print Assumptions api_add_remove_ts.
+
+(* exactness on [0, kp_max], totality on the timeline, the inverse, and the loop = the table form, for the
+   part and beat mode any such history leaves *)
+Theorem api_maps : forall q0 h, 0 < q0 -> ahist_ok (ainit q0) h -> has_note h ->
+  let p := apart q0 h in let m := amode q0 h in
+  (forall a b va vb, 0 <= a <= b /\ b <= kp_max Quarter p ->
+     tmapz Quarter p a = Some va -> tmapz Quarter p b = Some vb -> (vb - va == quarters_between p a b)%Q) /\
+  (forall a b va vb, 0 <= a <= b /\ b <= kp_max m p ->
+     tmapz m p a = Some va -> tmapz m p b = Some vb -> (vb - va == beats_between m p a b)%Q) /\
+  (forall t, p_first p <= t <= p_last p -> exists vq vb, tmapz Quarter p t = Some vq /\ tmapz m p t = Some vb) /\
+  (forall (t v : Q), tmap m p t = Some v -> exists t', tinv m p v = Some t' /\ (t' == t)%Q) /\
+  (forall (t v : Q), tmap Quarter p t = Some v -> exists t', tinv Quarter p v = Some t' /\ (t' == t)%Q) /\
+  sweep_time_pts Quarter p = time_pts Quarter p /\ sweep_time_pts m p = time_pts m p.
+Proof. exact Proofs.C02_api.api_maps. Qed.
+Print Assumptions api_maps.
+
+(* hypotheses are satisfiable: a later measure entered before the opening one, a second measure at the first
+   point entered afterwards, a signature beyond the last note added and removed again, a change of meter
+   and divisions, musical beats: timeline 0..48, opening measure (0, 8) = a pickup of 2 quarters *)
+Theorem example_api : (ahist_ok (ainit 4) ex_api /\ has_note ex_api) /\
+  p_first (apart 4 ex_api) = 0 /\ p_last (apart 4 ex_api) = 48 /\ p_m1 (apart 4 ex_api) = Some (0, 8) /\
+  map ts_t (p_tss (apart 4 ex_api)) = [0; 24] /\ amode 4 ex_api = Musical /\
+  map (fun r => fst (fst r)) (kp_rows Musical (apart 4 ex_api)) = [0; 24; 48] /\
+  (exists v, tmapz Quarter (apart 4 ex_api) 8 = Some v /\ (v == 0)%Q) /\
+  (exists v, tmapz Quarter (apart 4 ex_api) 48 = Some v /\ (v == 7)%Q) /\
+  (exists v, tmapz Musical (apart 4 ex_api) 48 = Some v /\ (v == 6)%Q).
+Proof. exact (conj ex_api_ok ex_api_values). Qed.
+Print Assumptions example_api.
+
+(* --- the interpolation wrapper partitura.utils.generic.interp1d (Model/C02_Api.v: wrap_linear, wrap_previous).
+   The time maps always hand it at least two keypoints, so it is scipy's interpolation that answers, i.e. the
+   maps of the theorems above *)
+Theorem time_maps_use_scipy : forall m p, wf p -> (2 <= List.length (time_pts m p))%nat /\
+  (forall t, wrap_linear (time_pts m p) t = tmap m p t) /\
+  (forall v, wrap_linear (swap_pts (time_pts m p)) v = tinv m p v).
+Proof. exact Proofs.C02_api.time_maps_use_scipy. Qed.
+Print Assumptions time_maps_use_scipy.
+
+(* quarter_duration_map as the code builds it (a single entry doubled, the wrapper, kind="previous" with
+   fill_value=(y[0], y[-1])) returns at ANY rational time the divisions in force (qd_map_spec) *)
+Theorem qd_map_impl_spec : forall p t, keys_incr (p_qs p) -> qd_map_impl (p_qs p) t = qd_map p (Qround.Qfloor t).
+Proof. exact Proofs.C02_api.qd_map_impl_spec. Qed.
+Print Assumptions qd_map_impl_spec.
+
+(* single-point safety: one entry only -> that value at every time, through the doubling and through the
+   wrapper's single-sample branch alike *)
+Theorem qd_map_single : forall k v t lo hi, qd_map_impl [(k, v)] t = v /\ wrap_previous [(k, v)] lo hi t = v.
+Proof. exact Proofs.C02_api.qd_map_single. Qed.
+Print Assumptions qd_map_single.
